@@ -161,6 +161,9 @@ def profile_cases(tier):
                 P = [(rng.uniform(1.3, 1.7), rng.uniform(-0.4, 0.4)) for _ in range(6)]
                 cases.append(dict(family=fam, sign=sign, options=opts, variant=var, psi_first=pa, psi_last=last, sweep=sw.tolist(), nprobe=nprobe, points=P,
                                   p_edge=50.0, fpol_sign=1.0))
+                if not var and fam in ("lsn", "udn"):
+                    # the same profiles handed over in the opposite order (psi1D listed from the edge to the axis)
+                    cases.append(dict(cases[-1], reverse_order=True))
     return cases
 
 
@@ -174,7 +177,7 @@ def check_profiles(chk, tr):
     dist = {}
     worst = dict(psi=0.0, fpol=0.0, pressure_core=0.0, pressure_leg=0.0, scalars=0.0, extrap_nodes=0.0)
     for c, r in zip(cases, res):
-        tag = f"{c['family']}:sign={c['sign']:+.0f}:{'+'.join(sorted(c['variant'])) or 'plain'}"
+        tag = f"{c['family']}:sign={c['sign']:+.0f}:{'+'.join(sorted(c['variant'])) or 'plain'}" + (":psi1D-edge-to-axis" if c.get("reverse_order") else "")
         if "error" in r:
             chk.fail(f"profiles:refused:{'+'.join(sorted(c['variant'])) or 'plain'}", "TokamakEquilibrium refused a supported analytic equilibrium with profiles", {"case": tag, "error": r["error"]})
             continue
